@@ -770,7 +770,15 @@ class ExprMixin:
         if (isinstance(a, bool) or is_bool(a)) and (isinstance(b, bool) or is_bool(b)):
             return to_bool_term(a) == to_bool_term(b)
         if isinstance(a, Obj) or isinstance(b, Obj):
-            return False if not (isinstance(a, Obj) and isinstance(b, Obj)) else self.identical(a, b)
+            if not (isinstance(a, Obj) and isinstance(b, Obj)):
+                o_ = a if isinstance(a, Obj) else b
+                other_ = b if o_ is a else a
+                if o_.kind is None and (not o_.cls or self.tree.class_info(o_.cls) is None) and isinstance(other_, (tuple, list)):
+                    # an object of unknown dynamic type (e.g. the .shape of an array) compared with a tuple / list: undetermined
+                    self.counter += 1
+                    return z3.Bool('eq!%d' % self.counter)
+                return False
+            return self.identical(a, b)
         x, y, _ = num_args(a, b)
         r = x == y
         c = concrete(r)
@@ -786,6 +794,10 @@ class ExprMixin:
             kc = concrete(item)
             if kc is not None or item is None:
                 return kc in container
+        if isinstance(container, Obj) and container.kind is None:
+            # `key in mapping` for an opaque container object: an undetermined boolean (fresh per test: the container may change between tests)
+            self.counter += 1
+            return z3.Bool('contains!%d' % self.counter)
         raise Unsupported('membership test in %r' % (container,))
 
     def fp_pair(self, a, b):
